@@ -36,7 +36,9 @@ MANIFEST = dict(
 KINDS = ['xml', 'render', 'logits', 'alto', 'lines']
 ID_SETS = [['p1', 'p2', 'p3'], ['a', 'a.b', 'a.b.c'], ['x', 'x.xml.y', 'x.xml'], ['scan', 'scan.jpg.v2', 'scan.jpg']]
 QUICK_SUBSETS = [[0, 1, 2, 3, 4], [0], [0, 1], [0, 2], [0, 3], [0, 4], [2, 3], [4]]
-BOUNDS = {'quick': dict(crashes_full=2, crashes_other=2, pages=3), 'thorough': dict(crashes_full=3, crashes_other=3, pages=3)}
+BOUNDS = {'quick': dict(crashes_full=2, crashes_other=2, pages=3, procs=[3]), 'thorough': dict(crashes_full=3, crashes_other=3, pages=3, procs=[2, 3, 4])}
+MP_SUBSET = [0, 1, 4]          # xml, render, line crops: the outputs of a configuration without an OCR model
+MP_WRITES = 9                   # writes of an uninterrupted run of that configuration on the three pages (checked)
 BOUNDS['replay'] = BOUNDS['quick']
 TMP = '/verif/.cache/tmp'
 PAGE_LINES = [[(10, 8, ['a', '_', 'b', 'ab', 'c']), (30, 20, ['ba', '_', 'bc', 'bc', 'a'])], [(12, 10, ['ab', 'ab', '_', 'ba'])], []]
@@ -66,12 +68,16 @@ def shards(tier):
             out.append({'subset': sub, 'ids': ii, 'pages': BOUNDS[tier]['pages']})
     # biggest state graphs first
     out.sort(key=lambda s: -len(s['subset']))
+    # resume in several worker processes (the model-free stages, which is what --process-count supports): one shard per kill point
+    for n in BOUNDS[tier]['procs']:
+        for k in range(MP_WRITES + 1):
+            out.append({'mp': n, 'crash': k, 'ids': (k + n) % len(ID_SETS)})
     return out
 
 
 # ------------------------------------------------------------------ the world
 class World:
-    def __init__(self, subset, ids_i, tag, npages=2):
+    def __init__(self, subset, ids_i, tag, npages=2, model_free=False):
         import cv2
         from mc import pipeline
         self.subset, self.ids = subset, ID_SETS[ids_i][:npages]
@@ -85,7 +91,11 @@ class World:
             cv2.imwrite(os.path.join(self.root, 'img', pid + '.png'), img)
             lay.to_pagexml(os.path.join(self.root, 'xml', pid + '.xml'))
         with open(os.path.join(self.root, 'config.ini'), 'w') as f:
-            f.write(pipeline.config_text('GREEDY'))
+            if model_free:
+                f.write('[PAGE_PARSER]\nRUN_LAYOUT_PARSER = no\nRUN_LINE_CROPPER = yes\nRUN_OCR = no\nRUN_DECODER = no\n\n'
+                        f'[LINE_CROPPER]\nINTERP = 1\nLINE_SCALE = 1\nLINE_HEIGHT = {pipeline.H_LINE}\n')
+            else:
+                f.write(pipeline.config_text('GREEDY'))
         self.out = os.path.join(self.root, 'out')
 
     def argv(self):
@@ -325,7 +335,74 @@ def explore(shard, ctx, tier, only_hist=None):
         world.close()
 
 
+def explore_mp(shard, ctx):
+    """kill an in-process run before its k-th write, then resume with the REAL command line tool and --process-count N"""
+    import subprocess
+    REPO = os.path.abspath(os.environ.get('VERIF_REPO', '/repo'))
+    n, k = shard['mp'], shard['crash']
+    case = dict(shard)
+    ctx.begin_case(case)
+    world = World(MP_SUBSET, shard['ids'], f'mp{n}-{k}', npages=3, model_free=True)
+    K = f'{ID}/multi-process-resume'
+    try:
+        r0 = world.run(None)
+        ctx.executed()
+        if r0['error'] or r0['killed'] or len(r0['writes']) != MP_WRITES:
+            ctx.harness_errors.append(f'model-free reference run: {r0["error"]}, {len(r0["writes"])} writes (expected {MP_WRITES})')
+            return
+        ref = canon(world.snapshot())
+        world.restore({})
+        if k < MP_WRITES:
+            rk = world.run(k)
+            ctx.executed()
+            if not rk['killed']:
+                ctx.harness_errors.append(f'kill point {k} not reached')
+                return
+        else:
+            world.run(None)                  # nothing left to do for the resumed run
+            ctx.executed()
+        before = canon(world.snapshot())
+        done_before = complete_pages(before, ref, world.ids)
+        ctx.state(('mp', n, shard['ids'], before))
+        env = dict(os.environ, PYTHONPATH=f'{REPO}:{REPO}/user_scripts')
+        argv = world.argv()
+        r = subprocess.run([sys.executable, os.path.join(REPO, 'user_scripts', 'parse_folder.py')] + argv[1:] + ['--process-count', str(n)],
+                           env=env, stdout=subprocess.PIPE, stderr=subprocess.STDOUT, text=True, timeout=600)
+        ctx.executed()
+        left = len(world.ids) - len(done_before)
+        desc = (f'outputs {[KINDS[i] for i in MP_SUBSET]}, page ids {world.ids}, first run killed before write {k} ({left} page(s) left), '
+                f'resumed with --skip-processed --process-count {n}')
+        if r.returncode != 0:
+            ctx.violation('resume-exits-cleanly', f'{K}/resume-fails' + ('-when-nothing-left' if left == 0 else ''),
+                          f'{desc}: exit status {r.returncode}: {r.stdout[-300:]}', case)
+            return
+        after = canon(world.snapshot())
+        if after != ref:
+            missing = sorted(set(dict(ref)) - set(dict(after)))
+            differ = sorted(rel for rel in dict(ref) if rel in dict(after) and dict(after)[rel] != dict(ref)[rel])
+            ctx.violation('every-output-present-and-equal', f'{K}/incomplete-after-resume',
+                          f'{desc}: missing {missing}, different {differ}, unexpected {sorted(set(dict(after)) - set(dict(ref)))}', case)
+            return
+        said = [pid for pid in done_before if f'Processing {pid}\n' in r.stdout]
+        if said:
+            ctx.violation('complete-pages-not-processed-again', f'{K}/complete-page-reprocessed', f'{desc}: {said} processed again', case)
+            return
+        ctx.outcome(('mp', n, left))
+        if 0 < left < n:
+            ctx.nontrivial(('mp', n, k, shard['ids']), 'fewer-pages-left-than-worker-processes')
+        ctx.tag('multi-process-resume')
+    finally:
+        world.close()
+
+
 def run_shard(shard, ctx, tier):
+    if 'mp' in shard:
+        try:
+            explore_mp(shard, ctx)
+        except Exception as e:  # noqa
+            import traceback
+            ctx.harness_errors.append('explore_mp: ' + ''.join(traceback.format_exception(e))[-1500:])
+        return
     try:
         explore(shard, ctx, tier)
     except Exception as e:  # noqa
@@ -334,6 +411,8 @@ def run_shard(shard, ctx, tier):
 
 
 def check_case(case, ctx):
+    if 'mp' in case:
+        return explore_mp(case, ctx)
     explore({'subset': case['subset'], 'ids': case['ids'], 'pages': case.get('pages', 2)}, ctx, 'replay', only_hist=case['hist'])
 
 
@@ -345,5 +424,5 @@ def describe(tier):
         'bounds': dict(BOUNDS[tier], subsets=len(subsets(tier)), id_sets=ID_SETS),
         'alphabets': {'outputs': KINDS, 'page_ids': ID_SETS},
         'assumptions': ['a kill leaves every earlier write complete and the interrupted one absent (no torn files)'],
-        'min_nontrivial': 20, 'required_tags': ['interrupted-states', 'state-with-partially-written-page'],
+        'min_nontrivial': 20, 'required_tags': ['interrupted-states', 'state-with-partially-written-page', 'multi-process-resume', 'fewer-pages-left-than-worker-processes'],
     }
